@@ -31,8 +31,23 @@ def run(tier, seed):
             all(literal(dict(o["props"])) if not isinstance(o["props"], dict) else literal(o["props"]) for o in p["ops"] if o["op"] == "rebalance")
         if normalised and pops and all(o["op"] == "pop" for o in pops) and all(i < first_strat for i, o in enumerate(p["ops"]) if o["op"] == "pop"):
             dist_ = pops[-1]["dist"]
+        variant = None
+        strat_idx = [i for i, o in enumerate(p["ops"]) if o["op"] == "strat" and o["kind"] == "plain" and o.get("mix") is None]
+        if strat_idx and not any(o["op"] in ("req", "rebalance", "cv", "whitelist") for o in p["ops"]):
+            # the same names in another layout: one ordinary stratification restricted to its first compartment
+            import copy as _copy
+            variant = checklib.strip_meta(_copy.deepcopy(dict(p, obs=[])))
+            j = strat_idx[-1]
+            so = variant["ops"][j]
+            if len(so["comps"]) > 1:
+                so["comps"] = so["comps"][-1:]
+                so["iadj"] = {c_: a_ for c_, a_ in (so.get("iadj") or {}).items() if c_ in so["comps"]}
+                # later operations that name strata of this stratification may no longer apply: drop them
+                variant["ops"] = variant["ops"][: j + 1]
+            else:
+                variant = None
         p["obs"] = [{"obs": "struct"}, {"obs": "initpop", "params": pv},
-                    {"obs": "oracle", "name": "c12", "params": pv, "times": p["times"], "dist": dist_}]
+                    {"obs": "oracle", "name": "c12", "params": pv, "times": p["times"], "dist": dist_, "variant_program": variant}]
     progs.append(carrier([{"obs": "oracle", "name": "c12_dates", "seed": seed, "n": 20 if tier == "quick" else 300}]))
     progs.append(carrier([{"obs": "oracle", "name": "c12_grid", "seed": seed, "n": 40 if tier == "quick" else 600}]))
     # the collision probe is compared on the implementation only (the model identifies compartments
